@@ -334,7 +334,8 @@ def out_tr(out, objs, ix):
     if isinstance(o, list): return [2] + [item(y) for y in o]
     if id(o) in ident: return [0, ident[id(o)]]
     if not any(o is n for n in news): news.append(o)
-    return [1, [i for i, n in enumerate(news) if n is o][0], [C12.bound_tree(o, ix, val)]]
+    fit = o.metadata.get('reward') if hasattr(o.metadata, 'get') else None
+    return [1, [i for i, n in enumerate(news) if n is o][0], [C12.bound_tree(o, ix, val)], [] if fit is None else [G.f64(fit)]]
   return [item(o) for o in out], news
 
 def impl_run(spec_t, expr, pop, seed):
@@ -345,6 +346,7 @@ def impl_run(spec_t, expr, pop, seed):
   inputs, objs = build_population(spec_t, spec, pop)
   before = json.dumps([pg.to_json(o) for o in objs.values()], sort_keys=True, default=str)
   shape_before = repr(shape(inputs, objs))
+  links_before = links_state(objs)
   rec = RecRandom(seed)
   b = Builder(rec=rec)
   res = dict(exc=None, spec=spec, objs=objs, inputs=inputs, ix=ix)
@@ -363,7 +365,15 @@ def impl_run(spec_t, expr, pop, seed):
   res['draws'] = rec.log; res['contract'] = (rec.checked, rec.contract_broken[:3])
   res['inputs_unchanged'] = (before == json.dumps([pg.to_json(o) for o in objs.values()], sort_keys=True, default=str)
                              and shape_before == repr(shape(inputs, objs)))
+  res['links_unchanged'] = links_before == links_state(objs)
   return res
+
+def links_state(objs):
+  """The ownership links of the input DNAs: who is the symbolic parent of every node (an input that gets adopted by
+  another object, or whose nodes are moved into a child, is modified although its JSON form is not)."""
+  def node(d):
+    return (id(d), id(d.sym_parent) if d.sym_parent is not None else None, id(d.spec) if d._spec is not None else None, tuple(node(c) for c in d.children))
+  return [node(o) for o in objs.values()]
 
 def shape(inputs, objs):
   ident = {id(o): k for k, o in objs.items()}
@@ -519,8 +529,11 @@ def oracle(spec_t, expr, pop, seed, res=None, determinism=True):
                      '%s returned %d items where the documentation says %d' % (opk, len(res['result']), want)))
   if not res['inputs_unchanged']:
     hits.append(('C14/input-modified/%s/to_json-differs' % opk, 'pg.to_json of the input DNAs (or the input list itself) changed during the call'))
+  elif not res['links_unchanged']:
+    hits.append(('C14/input-modified/%s/ownership-links' % opk,
+                 'an input DNA (or one of its nodes) has a different symbolic parent / bound spec after the call: the operator adopted or re-bound an object it was given'))
   if determinism and res['exc'] is None:
-    given = (res['inputs'], res['objs']) if res['inputs_unchanged'] else None
+    given = (res['inputs'], res['objs']) if res['inputs_unchanged'] and res['links_unchanged'] else None
     a = seeded_run(spec_t, expr, pop, seed, given); b = seeded_run(spec_t, expr, pop, seed, given)
     if a[0] != b[0] or (a[0] == 'ok' and not same_structure(a[1], a[2], b[1], b[2])) or (a[0] == 'exc' and a[1] != b[1]):
       hits.append(('C14/nondeterministic/%s/same-seed-differs' % opk, 'two runs with the same seeds and equal inputs give different results'))
@@ -712,6 +725,10 @@ CORPUS = [
      P([2, [0, 0, [1, 1], 0]]), [['d', 0, [('c', [(0, [('c', [(1, [])])])]), ('c', [(0, [])])], 1.0], ['d', 1, [('c', [(1, [('c', [(2, [])])])]), ('c', [(1, [])])], 2.0]], 2),
     ('oracle-only/average-rounding', ('S', [('F', 0.0, 0.1, ('x',), None)]), P([2, [0, 2, [0], 0]]), [['d', i, [('f', 0.1)], 1.0] for i in range(3)], 0),
     ('oracle-only/weighted-average-rounding', ('S', [('F', 0.2, 0.2, ('x',), None)]), P([2, [0, 3, [0], 1]]), [['d', i, [('f', 0.2)], f] for i, f in enumerate([0.1, 0.3, 0.7])], 0),
+    ('kpoint-adopts-parent-root', ('S', [C(1, [('S', [C(1, [E, E], False, False, 'i')]), E, E, E], False, False, 'x')]), P([2, [1, 1]]),
+     [['d', 0, [('c', [(0, [('c', [(1, [])])])])], 1.0], ['d', 1, [('c', [(2, [])])], 2.0]], 1),
+    ('pmx-adopts-parent-root', ('S', [C(1, [('S', [_perm(3, 'p')]), E], False, False, 'x')]), P([2, [3, 0, [0]]]),
+     [['d', 0, [('c', [(0, _pd([0, 1, 2]))])], 1.0], ['d', 1, [('c', [(0, _pd([2, 0, 1]))])], 2.0]], 1),
     ('repeat-plain-callable', ('S', [C(1, [E, E, E], False, False, 'x')]), [8, 2, [19, P([0, [5, [0, 1]]])]],
      [['d', 0, [('c', [(0, [])])], 1.0], ['d', 1, [('c', [(2, [])])], 2.0]], 0),
 ] + [
